@@ -55,6 +55,7 @@ func main() {
 		"window/<i>: every (scenario x prior state of the watch) combination in turn with random controller/watch/extra watches; a StartWatches is parked inside ActiveInformers() (after the controller fetch, before the controller lock) while Stop, Stop+Start, a second StartWatches, StopWatches, the collector or RemoveInformer completes; non-trivial by the same overlap rule. " +
 		"seq/<i> (single goroutine), reestablish/<i> (informer removed, then the next StartWatches) and gc/<i> (collector over generated XRs/resourceRefs in the simulated API server with XR, CompositionRevision and composed-resource watches running) are sequential and never counted as non-trivial. " +
 		"Kinds in gc cases have one version per (group, kind) so that 'kind' and GVK coincide. Fake controllers' Watch and fake informers' RemoveEventHandler never fail."
+	c.Rule += " (e) failing stop: RemoveEventHandler / GetInformer fail once or twice for kinds a controller watches; after every Stop attempt a controller reported as not running must have a cancelled context and no live handler; Stop retried until nil."
 	c.Assumptions = []string{
 		"fake informers model client-go: handlers die with a removed informer instance, RemoveEventHandler of an unknown handle is a no-op, AddEventHandler on a stopped informer fails",
 		"the fake controller starts a source immediately in Watch (a started controller-runtime controller does the same)",
